@@ -203,7 +203,11 @@ class Controller:
         else:
             # adapt tolerances to time step
             stepper_atol = 1e-6 * dt  # control loop termination and min advance
-            tracker_atol = 0.5 * dt  # allow firing within half a step of the interrupt
+            if self.diagnostics["solver"].get("dt_adaptive"):
+                # adaptive steppers hit interrupts exactly, so trackers need no slack
+                tracker_atol = stepper_atol
+            else:
+                tracker_atol = 0.5 * dt  # allow firing within half a step of the interrupt
 
         # evolve the system from t_start to t_end
         t = t_start
@@ -230,7 +234,10 @@ class Controller:
                 # update the tolerances to reflect changes in time step `dt`
                 if dt := self.diagnostics["solver"].get("dt"):
                     stepper_atol = 1e-6 * dt
-                    tracker_atol = 0.5 * dt
+                    if self.diagnostics["solver"].get("dt_adaptive"):
+                        tracker_atol = stepper_atol
+                    else:
+                        tracker_atol = 0.5 * dt
 
         except StopIteration as err:
             # iteration has been interrupted by a tracker
